@@ -39,7 +39,9 @@ import (
 //
 // Every registry operation is a schedule-noise point (seeded per case) and a possible
 // leadership-change point (the k-th registry operation of the case moves the
-// coordinator flag to another node, for all views at once).
+// coordinator flag to another node, for all current views at once). Membership views are
+// per node: one node can hold a stale view (it still names a former coordinator, never
+// itself) while all the others are current.
 // ---------------------------------------------------------------------------
 
 const c36SysName = "vfc36"
@@ -179,7 +181,9 @@ func (*c36KindA) PostStop(ctx *Context) error {
 // ---- the per-case plan ----
 
 type c36Plan struct {
-	coord      atomic.Int32 // index of the coordinator
+	coord      atomic.Int32 // index of the (real) coordinator
+	staleNode  atomic.Int32 // node whose membership view is stale (-1 = every view is current)
+	staleTo    int32        // the member that the stale node still believes to be the coordinator
 	flipAt     int64        // the flipAt-th registry operation moves the coordinator (0 = never)
 	flipTo     int32
 	flipped    atomic.Bool
@@ -468,6 +472,11 @@ func (v *c36View) Events() <-chan *cluster.Event { return v.events }
 // membership: all three fixture nodes are members; the coordinator flag follows the plan
 func (v *c36View) coordinator() int {
 	if p := v.reg.plan.Load(); p != nil {
+		// per-node view: one node may still see a former coordinator (its view lags behind);
+		// every other node, the real coordinator included, sees the real one
+		if int(p.staleNode.Load()) == v.idx {
+			return int(p.staleTo)
+		}
 		return int(p.coord.Load())
 	}
 	return 0
